@@ -28,7 +28,7 @@ scheduler's sender becomes `set_error`".  `set_value_predecessor_sender` is decl
 try/catch: such an exception ends in `std::terminate` (model: `aborted`, witness
 `C03x_sf_throwing_store_terminates_counterexample`).  The completion clauses below therefore carry the hypothesis
 `aborted = false` where they claim that a completion *happens*; everything else holds in aborted states too.
-(let_value / let_error do catch: see Props/C03y.)
+(let_value / let_error do catch: second part of this file.)
 -/
 namespace PikaVerif.C03
 open PikaVerif PikaVerif.SchedFromLife
@@ -234,11 +234,11 @@ theorem C03x_sf_reset_precedes_forward (c : SchedFromLife.Cfg) (hc : c.ok) (s s'
   · split at h
     · rename_i p hg
       split at h
-      · rename_i hg2; exact key hg2.2.2 (hf.o.pcPredO t p hg).2.2.2
+      · exact key (hf.c.holderDeliv t (hf.c.busyHolder t (by rw [hg]; rfl))) (hf.o.pcPredO t p hg).2.2.2
       · simp at h
     · rename_i p hg
       split at h
-      · rename_i hg2; exact key hg2.2 (hf.o.pcRstO t p hg).2
+      · exact key (hf.c.holderDeliv t (hf.c.busyHolder t (by rw [hg]; rfl))) (hf.o.pcRstO t p hg).2
       · simp at h
     · rename_i p hg
       split at h
